@@ -276,7 +276,7 @@ def write_evidence(o, spec):
         "Lean 4.33 kernel (lake build; thorough tier: leanchecker)",
         "axioms per theorem as printed by #print axioms: " + json.dumps({k.split(".")[-1]: v for k, v in o.axioms.items()}, sort_keys=True)[:3000],
         "hand-written Lean model tied to /repo by: generated constants (tools/gen_consts.py), extracted synchronisation skeleton (tools/extract_skeleton.py, where applicable), differential correspondence runs (harness/kimpl vs lean/kmodel)",
-        "unverified glue: tools/check.py, generators, harness crate, kmodel line parser",
+        "unverified glue: tools/check.py, generators (incl. the libFuzzer-guided one, tools/fuzzgen.py: input generation only, no verdict), harness crate, kmodel line parser",
         "modelled not verified: Rust std (slices, str, BufReader, Take, io::copy, mpsc, Mutex, thread), memchr, libc, Linux kernel, allocator, rustc; 64-bit little-endian",
     ] + spec.get("trusted", [])
     ev = {
@@ -287,7 +287,7 @@ def write_evidence(o, spec):
         "coverage": {
             "obligations": o.obligations,
             "discharged": o.discharged,
-            "checker_cmd": "cd lean && lake build " + " ".join(spec.get("lean", [])) + " && lake env lean .lake/audit_%s.lean  (#print axioms)" % o.pid,
+            "checker_cmd": "cd lean && lake build " + " ".join(spec.get("lean", []) + [m for m in spec.get("soft_lean", []) if not any(d.startswith(m.split(".")[-1]) for d in getattr(o, "soft_differs", []))]) + " && lake env lean .lake/audit_%s.lean  (#print axioms)" % o.pid,
             "trusted_base": trusted,
             "theorems": [t.split(".")[-1] for t in o.theorems],
             "evaluations": o.evaluations,
@@ -327,6 +327,15 @@ def do_setup():
         print(out[-3000:])
         print("setup: lake build FAILED")
         return 1
+    # every property's theorem modules (so that a check run only re-checks what a change of /repo invalidates)
+    try:
+        REG = load_props()
+        mods = sorted({m for sp in REG.values() for m in sp.get("lean", []) + sp.get("soft_lean", [])})
+        ok2, out2 = lake_build(mods)
+        if not ok2:
+            print("setup: some property modules do not build:", first_lean_error(out2))
+    except Exception as e:
+        print("setup: property modules not pre-built:", repr(e)[:200])
     ok, out = cargo_build()
     if not ok:
         print(out[-3000:])
